@@ -199,6 +199,8 @@ const (
 	dmgNumField   // a numeric body field's value made non-numeric (re-framed correctly)
 	dmgNumEmpty   // a numeric body field present with an empty value (re-framed correctly)
 	dmgSeqEmpty   // MsgSeqNum present with an empty value (re-framed correctly)
+	dmgNumHuge    // a numeric body field holding a 20-digit decimal number (not representable as int)
+	dmgSeqHuge    // MsgSeqNum holding a 20-digit decimal number
 	nDamage
 )
 
@@ -254,10 +256,10 @@ func applyDamage(b []byte, kind int, numTag string) []byte {
 		zz.Assume(x <= '9')
 		zz.Assume(x != d[i-1])
 		d[i-1] = x
-	case dmgSeqMissing, dmgSeqAlpha, dmgNumField, dmgNumEmpty, dmgSeqEmpty:
+	case dmgSeqMissing, dmgSeqAlpha, dmgNumField, dmgNumEmpty, dmgSeqEmpty, dmgNumHuge, dmgSeqHuge:
 		var mid []byte
 		target := "34"
-		if kind == dmgNumField || kind == dmgNumEmpty {
+		if kind == dmgNumField || kind == dmgNumEmpty || kind == dmgNumHuge {
 			target = numTag
 		}
 		for _, t := range tokens(middle(b)) {
@@ -269,6 +271,15 @@ func applyDamage(b []byte, kind int, numTag string) []byte {
 				mid = append(mid, '=')
 				if kind == dmgNumEmpty || kind == dmgSeqEmpty {
 					mid = append(mid, 1)
+					continue
+				}
+				if kind == dmgNumHuge || kind == dmgSeqHuge {
+					hi, lo := zz.Byte(), zz.Byte()
+					zz.Assume(zz.And(hi >= '1', hi <= '9'))
+					zz.Assume(zz.And(lo >= '0', lo <= '9'))
+					mid = append(mid, hi)
+					mid = append(mid, "844674407370955161"...)
+					mid = append(mid, lo, 1)
 					continue
 				}
 				x := zz.Byte()
@@ -329,6 +340,9 @@ func mkInbound(kind int, sender, target string, seq int) ([]byte, string) {
 	switch kind {
 	case mLogon:
 		m := fixgen.CreateLogon(string(zz.Bytes(1)), zz.IntIn(10, 99))
+		if zz.Param(9)/2%2 == 1 {
+			m.SetResetSeqNumFlag(true)
+		}
 		setHdr(m.Header(), sender, target, seq)
 		return wire(m), "108"
 	case mLogout:
